@@ -8,24 +8,27 @@ def GroupDead (s : St) : Prop := ∀ p ∈ s.procs, p.inGroup = true → p.alive
 /-- Nobody alive holds a pipe end and the leader is gone (what `cmd.Wait()` returning means), as a `Prop`. -/
 def Quiet (s : St) : Prop := s.leader.alive = false ∧ ∀ p ∈ s.others, p.alive = true → p.holdsPipe = false
 
+/-- The facts under which the group is dead after SIGKILL: both rounds always run, to the whole group. -/
+def Good (tm : Timing) : Prop := tm.killAlways = true ∧ tm.killsGroup = true
+
 /-- The invariant: the clock never runs past what the current phase allows, and the phases after SIGKILL
-    have a dead group; after a normal return the pipes are closed and the leader has exited. -/
+    have a dead group; a normal return happens by the deadline, with the pipes closed and the leader gone. -/
 def Inv (tm : Timing) (s : St) : Prop :=
   match s.phase with
   | .running => s.now ≤ s.deadline
   | .termSent t => t ≤ s.deadline ∧ t ≤ s.now ∧ s.now ≤ t + tm.termWait
   | .killSent t => t ≤ s.deadline + tm.termWait ∧ t ≤ s.now ∧ s.now ≤ t + tm.killWait ∧ GroupDead s
   | .returned true t => t ≤ s.deadline + tm.termWait + tm.killWait ∧ GroupDead s
-  | .returned false _ => Quiet s
+  | .returned false t => t ≤ s.deadline ∧ Quiet s
 
 theorem sigKill_dead (p : Proc) (h : (sigKill p).inGroup = true) : (sigKill p).alive = false := by
   unfold sigKill at *
   split at h <;> simp_all
 
-theorem groupDead_signal_kill (s : St) : GroupDead (s.signal sigKill) := by
-  intro p hp hg
-  simp only [St.procs, St.signal, List.mem_cons, List.mem_map] at hp
-  rcases hp with rfl | ⟨q, _, rfl⟩ <;> exact sigKill_dead _ hg
+theorem groupDead_signal_kill {tm : Timing} (hg : tm.killsGroup = true) (s : St) : GroupDead (s.signal tm sigKill) := by
+  intro p hp hin
+  simp only [St.procs, St.signal, hg, ↓reduceIte, List.mem_cons, List.mem_map] at hp
+  rcases hp with rfl | ⟨q, _, rfl⟩ <;> exact sigKill_dead _ hin
 
 theorem waitDone_quiet {s : St} (h : s.waitDone = true) : Quiet s := by
   simp only [St.waitDone, Bool.and_eq_true, Bool.not_eq_true', List.all_eq_true] at h
@@ -40,7 +43,8 @@ theorem procStep_mono {p p' : Proc} (h : ProcStep p p') :
     (p'.inGroup = true → p.inGroup = true) := by
   cases h <;> simp_all
 
-theorem inv_sup {tm : Timing} {s s' : St} (hi : Inv tm s) (h : sup tm s = some s') : Inv tm s' := by
+theorem inv_sup {tm : Timing} (hgood : Good tm) {s s' : St} (hi : Inv tm s) (h : sup tm s = some s') : Inv tm s' := by
+  obtain ⟨hka, hkg⟩ := hgood
   unfold sup at h
   unfold Inv at hi
   cases hph : s.phase with
@@ -51,24 +55,24 @@ theorem inv_sup {tm : Timing} {s s' : St} (hi : Inv tm s) (h : sup tm s = some s
       cases h
       simp only [Inv]
       simp only [St.chReady, Bool.and_eq_true] at hc
-      exact waitDone_quiet hc.1
+      exact ⟨hi, waitDone_quiet hc.1⟩
     · split at h
       · cases h
         simp only [Inv, St.signal]
         omega
       · cases h
   | termSent t =>
-    simp only [hph] at h hi
+    simp only [hph, hka, ↓reduceIte] at h hi
     split at h
     · cases h
       simp only [Inv]
       refine ⟨by simp [St.signal]; omega, by simp [St.signal], by simp [St.signal], ?_⟩
-      exact groupDead_signal_kill s
+      exact groupDead_signal_kill hkg s
     · split at h
       · cases h
         simp only [Inv]
         refine ⟨by simp [St.signal]; omega, by simp [St.signal], by simp [St.signal], ?_⟩
-        exact groupDead_signal_kill s
+        exact groupDead_signal_kill hkg s
       · cases h
   | killSent t =>
     simp only [hph] at h hi
@@ -98,7 +102,7 @@ theorem sup_none_time {tm : Timing} {s : St} (hi : Inv tm s) (h : sup tm s = non
   | termSent t =>
     simp only [hph] at h hi ⊢
     split at h
-    · cases h
+    · split at h <;> cases h
     · split at h
       · cases h
       · omega
@@ -183,11 +187,11 @@ theorem inv_env {tm : Timing} {s s' : St} (hi : Inv tm s) (hnow : s'.now = s.now
   | returned b t =>
     cases b with
     | true => simp only [h] at hi ⊢; exact ⟨hi.1, hg hi.2⟩
-    | false => simp only [h] at hi ⊢; exact hq hi
+    | false => simp only [h] at hi ⊢; exact ⟨hi.1, hq hi.2⟩
 
-theorem inv_step {tm : Timing} {s s' : St} (hi : Inv tm s) (h : Step tm s s') : Inv tm s' := by
+theorem inv_step {tm : Timing} (hgood : Good tm) {s s' : St} (hi : Inv tm s) (h : Step tm s s') : Inv tm s' := by
   cases h with
-  | sup h => exact inv_sup hi h
+  | sup h => exact inv_sup hgood hi h
   | tick h => exact sup_none_time hi h
   | leader hs => exact inv_env hi rfl rfl rfl (fun g => groupDead_leader g hs) (fun q => quiet_leader q hs)
   | other pre post p p' he hs =>
@@ -198,32 +202,39 @@ theorem deadline_step {tm : Timing} {s s' : St} (h : Step tm s s') : s'.deadline
   cases h with
   | sup h =>
     unfold sup at h
-    split at h
-    · split at h
+    cases hph : s.phase with
+    | running =>
+      simp only [hph] at h
+      split at h
       · cases h; rfl
       · split at h
         · cases h; rfl
         · cases h
-    · split at h
+    | termSent t =>
+      simp only [hph] at h
+      split at h
+      · split at h <;> (cases h; rfl)
+      · split at h
+        · cases h; rfl
+        · cases h
+    | killSent t =>
+      simp only [hph] at h
+      split at h
       · cases h; rfl
       · split at h
         · cases h; rfl
         · cases h
-    · split at h
-      · cases h; rfl
-      · split at h
-        · cases h; rfl
-        · cases h
-    · cases h
+    | returned b t => simp [hph] at h
   | tick _ => rfl
   | leader _ => rfl
   | other _ _ _ _ _ _ => rfl
   | fork _ _ _ => rfl
 
-theorem inv_reach {tm : Timing} {s t : St} (hi : Inv tm s) (h : Reach tm s t) : Inv tm t ∧ t.deadline = s.deadline := by
+theorem inv_reach {tm : Timing} (hgood : Good tm) {s t : St} (hi : Inv tm s) (h : Reach tm s t) :
+    Inv tm t ∧ t.deadline = s.deadline := by
   induction h with
   | refl => exact ⟨hi, rfl⟩
-  | step _ hs ih => exact ⟨inv_step ih.1 hs, by rw [deadline_step hs, ih.2]⟩
+  | step _ hs ih => exact ⟨inv_step hgood ih.1 hs, by rw [deadline_step hs, ih.2]⟩
 
 theorem inv_init (tm : Timing) (d : Nat) (ign : Bool) : Inv tm (init d ign) := by
   simp [Inv, init]
@@ -258,7 +269,10 @@ theorem sup_none_iff {tm : Timing} {s : St} (hp : ∀ b t, s.phase ≠ .returned
   unfold sup due
   cases hph : s.phase with
   | running => by_cases hc : s.chReady = true <;> simp [hc] <;> omega
-  | termSent t => by_cases hc : s.chReady = true <;> simp [hc] <;> omega
+  | termSent t =>
+    by_cases hc : s.chReady = true
+    · cases hka : tm.killAlways <;> simp [hc, hka]
+    · simp [hc]
   | killSent t => by_cases hc : s.chReady = true <;> simp [hc] <;> omega
   | returned b t => exact absurd hph (hp b t)
 
@@ -443,6 +457,10 @@ theorem reach_applyExits {tm : Timing} (sc : Script) (s : St) (hl : s.others.len
 def rank : Phase → Nat
   | .running => 0 | .termSent _ => 1 | .killSent _ => 2 | .returned _ _ => 3
 
+theorem signal_len (tm : Timing) (s : St) (f : Proc → Proc) : (s.signal tm f).others.length = s.others.length := by
+  unfold St.signal
+  cases tm.killsGroup <;> simp
+
 theorem sup_rank {tm : Timing} {s s' : St} (h : sup tm s = some s') :
     rank s.phase < rank s'.phase ∧ s'.others.length = s.others.length := by
   unfold sup at h
@@ -452,14 +470,16 @@ theorem sup_rank {tm : Timing} {s s' : St} (h : sup tm s = some s') :
     split at h
     · cases h; simp [rank]
     · split at h
-      · cases h; simp [rank, St.signal]
+      · cases h; exact ⟨by simp [rank], signal_len tm s sigTerm⟩
       · cases h
   | termSent t =>
     simp only [hph] at h
     split at h
-    · cases h; simp [rank, St.signal]
     · split at h
-      · cases h; simp [rank, St.signal]
+      · cases h; exact ⟨by simp [rank], signal_len tm s sigKill⟩
+      · cases h; simp [rank]
+    · split at h
+      · cases h; exact ⟨by simp [rank], signal_len tm s sigKill⟩
       · cases h
   | killSent t =>
     simp only [hph] at h
